@@ -71,6 +71,8 @@ def closure(fx):
         for n, s in f.assigns():
             if s["rv"]["r"] == "agg" and s["rv"].get("closure"):
                 k = s["rv"]["closure"]
+                if k in fx.hidden():
+                    continue        # a new closure that was spelled out where it is used (engine/inline.py): analysed there
                 if fx.has(k) and k not in seen:
                     seen[k] = fx.fn(k)
                     work.append(seen[k])
@@ -234,18 +236,52 @@ def missing_facts(needs, dom, fn):
         return []
     names = set(fn.names.values()) | set(fn.upvar_names.values())
     vanished = sorted(v for v in var_atoms(needs) if v not in names)
-    if not vanished or len(vanished) > 3:
-        return miss
     cands = sorted(v for v in var_atoms(dom) if v in names and v not in var_atoms(needs))
-    for perm in itertools.permutations(cands, len(vanished)):
-        ren = dict(zip(vanished, perm))
-        if all(holds(rename_fact(n, ren), dom) for n in needs):
-            return []
+    if vanished and len(vanished) <= 3:
+        for perm in itertools.permutations(cands, len(vanished)):
+            ren = dict(zip(vanished, perm))
+            if all(holds(rename_fact(n, ren), dom) for n in needs):
+                return []
+    if not vanished:
+        # a pattern binding renamed to a name that is free again elsewhere in the function (`Some(pending)` -> `Some(PendingFrame {
+        # buffer, .. })` while a field `pending` still exists): one variable of the failing needs may stand for one other variable,
+        # consistently in all needs of the entry
+        for old_ in sorted(var_atoms(miss)):
+            for new_ in cands:
+                ren = {old_: new_}
+                if all(holds(rename_fact(n, ren), dom) for n in needs):
+                    return []
     return miss
 
 
 def fact_str(f):
     return "%s %s %s" % (f[0], f[1], f[2])
+
+
+def _entry_missing(fx, fn, fs, p, ent):
+    nodes = [p["node"]]
+    afs, afn = fs, fn
+    if ent.get("at"):
+        afn = fn if not ent.get("at_fn") else fx.fn(ent["at_fn"])
+        afs = fs if afn is fn else k6.Facts6(afn) if afn is not None else None
+        nodes = find_anchor(afn, ent["at"]) if afn is not None else []
+        if not nodes:
+            return ["anchor %s not found" % ent["at"]]
+    missing = []
+    for nd in nodes:
+        missing += [fact_str(x) for x in missing_facts(ent.get("need", []), afs.dominating(nd), afn)]
+    return missing
+
+
+def _shifted_entry(fx, fn, fs, p, short, what, ordinal, key):
+    for delta in (1, -1, 2, -2):
+        k2 = "%s|%s:%s#%d" % (short, p["kind"], what, ordinal + delta)
+        e2 = TABLE.get(k2)
+        if e2 is None or k2 == key or not e2.get("need"):
+            continue
+        if not _entry_missing(fx, fn, fs, p, e2):
+            return k2, e2
+    return None
 
 
 def r19_1(ctx, fx, seen):
@@ -255,6 +291,9 @@ def r19_1(ctx, fx, seen):
     inventory = []
     for k, fn in sorted(seen.items()):
         ps = panics.panic_sites(fn)
+        # ordinals follow the source: sites are numbered by line (then by position in the CFG), so that a block which was moved
+        # into a helper defined in the same order - or whose basic blocks come out in another order - keeps its numbers
+        ps = sorted(ps, key=lambda p_: (fn.line(p_["node"]), p_["node"]))
         if not ps:
             continue
         ctx.bodies.add((fx.cfg, k))
@@ -273,6 +312,24 @@ def r19_1(ctx, fx, seen):
             inventory.append((key, desc, fn.site(p["node"])))
             ent = TABLE.get(key)
             if ent is None:
+                # one construct more than the table lists for this function and kind (an expression was duplicated): the entry of a
+                # neighbouring ordinal whose facts hold here may be the one meant
+                shifted = _shifted_entry(fx, fn, fs, p, fn_short(k), what, ords[(p["kind"], what)], None)
+                if shifted is None:
+                    # .. or the construct stands for one that is gone (`bytes.slice(a..b)` rewritten as `advance(a)` + `split_to(n)`):
+                    # an entry of this function whose construct no longer exists and whose (non-empty) requirement holds here
+                    present = {"%s|%s:%s#%d" % (fn_short(k), q_["kind"], site_desc(fn, fs, q_)[0], i_ + 1)
+                               for kk in {(q2["kind"], site_desc(fn, fs, q2)[0]) for q2 in ps}
+                               for i_, q_ in enumerate([q3 for q3 in ps if (q3["kind"], site_desc(fn, fs, q3)[0]) == kk])}
+                    for k2, e2 in TABLE.items():
+                        if k2.startswith(fn_short(k) + "|") and k2 not in present and e2.get("need") and not _entry_missing(fx, fn, fs, p, e2):
+                            shifted = (k2, e2)
+                            break
+                if shifted is not None:
+                    used.add(shifted[0])
+                    n_table += 1
+                    ctx.ob("R19.1", key, True, site=fn.site(p["node"]), cfg=fx.cfg, detail="discharged by the entry %s (ordinal shifted): %s" % (shifted[0], shifted[1].get("why", "")))
+                    continue
                 ctx.ob("R19.1", "undischarged:" + key, False, site=fn.site(p["node"]), cfg=fx.cfg,
                        detail="panic-capable construct `%s` in the decoder closure is not covered by any discharge (rules/C19_table.py); dominating facts: %s"
                               % (desc[:80], sorted(fact_str(x) for x in fs.dominating(p["node"]))[:8]))
@@ -295,6 +352,15 @@ def r19_1(ctx, fx, seen):
             for nd in nodes:
                 dom = afs.dominating(nd)
                 missing += [fact_str(x) for x in missing_facts(ent.get("need", []), dom, afn)]
+            if missing:
+                # the ordinal of a site shifts when a neighbouring construct of the same kind is added or removed (a sub-expression
+                # bound to a local once instead of written twice): a listed entry of this function and kind, at most two ordinals
+                # away, whose (non-empty) requirement holds here is taken instead
+                shifted = _shifted_entry(fx, fn, fs, p, fn_short(k), what, ords[(p["kind"], what)], key)
+                if shifted is not None:
+                    used.add(shifted[0])
+                    ctx.ob("R19.1", key, True, site=fn.site(p["node"]), cfg=fx.cfg, detail="discharged by the entry %s (ordinal shifted): %s" % (shifted[0], shifted[1].get("why", "")))
+                    continue
             ctx.ob("R19.1", key, not missing, site=fn.site(p["node"]), cfg=fx.cfg,
                    detail="[%s] %s :: %s ; required guard facts %s%s" % (ent.get("class", "guard"), desc[:60], ent.get("why", ""), [fact_str(x) for x in ent.get("need", [])],
                                                                           (" ; NO LONGER DOMINATING: %s" % sorted(set(missing))) if missing else ""))
@@ -340,6 +406,11 @@ def auto_bounded(fn, o, depth=0):
         return False
     if d[1] == "call":
         c = fn.call_at(d[0])
+        if re.search(r"slice::(<impl \[T\]>::)?len$|(BytesMut|Bytes|Vec(<.*>)?|String|str)::len$", c.name) and c.args and depth > 0:
+            # a term of a sum that is the length of data already held in memory (`Vec::with_capacity(a.len() + b.len())`): the
+            # allocation is proportional to what is there, whatever its origin (depth > 0: not the bare decoded length itself, which
+            # is a `len()` of nothing yet)
+            return True
         if re.search(r"(BytesMut|Bytes|Vec(<.*>)?)::len$", c.name) and c.args:
             from common import ref_local
             b = ref_local(fn, c.args[0])
@@ -356,7 +427,7 @@ def auto_bounded(fn, o, depth=0):
 def r19_2(ctx, fx, seen):
     n = 0
     for k, fn in sorted(seen.items()):
-        al = panics.alloc_sites(fn)
+        al = sorted(panics.alloc_sites(fn), key=lambda c_: (fn.line(c_.node), c_.node))
         if not al:
             continue
         fs = k6.Facts6(fn)
@@ -465,7 +536,7 @@ def r19_2b(ctx, fx, seen):
     n = 0
     for k, fn in sorted(seen.items()):
         gs = [c for c in fn.calls(GROW_RX) if not panics.in_log_macro(c.ex)]
-        gs = [c for c in gs if c.node in fn.reach([c.node], after=True)]
+        gs = sorted([c for c in gs if c.node in fn.reach([c.node], after=True)], key=lambda c_: (fn.line(c_.node), c_.node))
         if not gs:
             continue
         fs = k6.Facts6(fn)
